@@ -12,13 +12,13 @@ def run(tier, seed):
         for p in (pats if thorough else pats[:3]):
             cases.append(Case('agg_n%d_p%d' % (n, p), 'crypto', 'zzC04_aggregate', [n, p]))
     # long lists (beyond any fixed internal buffer): one symbolic scalar repeated, or two alternating
-    for (n, k) in ([(65, 1), (130, 1), (300, 1), (600, 1), (1100, 1), (20, 2), (40, 2)] if thorough else [(65, 1), (130, 1), (300, 1), (20, 2)]):
+    for (n, k) in ([(65, 1), (130, 1), (300, 1), (600, 1), (20, 2), (40, 2)] if thorough else [(65, 1), (130, 1), (300, 1), (20, 2)]):
         cases.append(Case('wide_n%d_k%d' % (n, k), 'crypto', 'zzC04_wide', [n, k]))
     return run_check('C04', cases, tier, seed, setup=SETUP, timeout_ms=240000,
         functions=['AggregateBLSSignatures', 'AggregateBLSPrivateKeys', 'AggregateBLSPublicKeys', 'RemoveBLSPublicKeys', 'IdentityBLSPublicKey', 'IsBLSSignatureIdentity', 'newPubKeyBLSBLS12381',
                    'C:E1_sum_vector_byte', 'C:E1_sum_vector', 'C:Fr_sum_vector', 'C:E2_sum_vector_to_affine', 'C:E2_subtract_vector', 'C:E2_neg'],
         bounds={'multisets': 'n <= %d symbolic keys with duplicate patterns; sums to zero are covered by the symbolic values (the solver chooses x1 + ... + xn = 0)' % (4 if thorough else 3),
-                'long lists': 'lists of 65, 130, 300 (thorough: 600, 1100) signatures / keys built from one symbolic scalar, 20 (40) from two: aggregate = (sum of scalars) * generator, removal of all but the first key',
+                'long lists': 'lists of 65, 130, 300 (thorough: 600) signatures / keys built from one symbolic scalar, 20 (40) from two: aggregate = (sum of scalars) * generator, removal of all but the first key',
                 'shapes': 'reverse order, split into (first, rest), removal of the rest and of all keys', 'outside': 'BLST group law'},
         assumptions=ASSUME, trusted=galg.TRUSTED + stubs_hash.TRUSTED,
         explanation='symbolic execution of the aggregation functions with exact polynomial discrete logs: homomorphism identities become polynomial identities decided by normalisation, identity cases by congruences')
